@@ -3,6 +3,16 @@
 import json, subprocess, sys
 
 CHECKS = {
+ "C01": dict(cat="exploration", tech="differential monitor: library binary encoder/decoder vs an independent reference layout model and strict parser, over seeded well-formed messages with forced coverage",
+   text="Each generated message (54k quick / 4M thorough; every operation x direction, object type, key format, standard attribute, credential type forced and counted) is laid out by an independently written reference model (own reflect walk, pinned tag and version tables, hand-modelled batch items/unions/opaque values); the library's bytes must parse strictly to exactly that tree, decode to a message with the same tree, and re-encode to identical bytes. Sampling of an unbounded space with required coverage counters; a run that misses a class exits 2.",
+   note="The model reads field order and omitempty from the struct definitions (a wrong omitempty is seen only by C04-B). Pins are the author's reading of KMIP 1.0-1.4.", ref="§2 C01"),
+ "C05": dict(cat="exploration", tech="differential monitor against a pinned version-gate table: exhaustive field x version x populated x context matrix, decode-side version rewrite, annotation diff",
+   text="All 61 pinned version-dependent fields x 5 versions x populated/unpopulated x 6 surrounding contexts are encoded and compared with the reference layout at that version (no later element, every valid populated element); the full 1.4 encoding with the header version rewritten is decoded and must return every element; live version= annotations are diffed against the pin; plus 8k/600k random messages with gated fields populated regardless of version. The matrix is enumerated completely; contexts and surrounding content are sampled.",
+   note="Gate table pinned from the tree after review against KMIP 1.0-1.4; a field unknown to both pin and library is invisible.", ref="§2 C05"),
+ "C17": dict(cat="exploration", tech="exhaustive registry walk through the public API against a pinned registry, in 3 fresh processes whose observations are compared",
+   text="Every tag in 0x420000-0x4203FF / 0x540000-0x5400FF, every value of the 47 named enumerations (plus the unnamed 48th type), and every flag of both masks is written and read back by name through XML, JSON, binary and text forms (independent XML/JSON parsers judge the written name), compared with /verif/ref/registry.json, with unregistered numbers, unknown names and cross-scope names; three fresh processes must observe the identical registry. Exhaustive inside those ranges.",
+   note="The pin is the pinned tree's registry reviewed against the KMIP 1.4 tag/enumeration tables.", ref="§2 C17"),
+
  "C03": dict(cat="exploration", tech="differential monitor: library encoder/decoder vs an independent strict TTLV parser and generator over seeded trees and exhaustive ladders",
    text="Every library encoding of ~45k (quick) / ~2M (thorough) generic trees is parsed by an independently written strict parser and compared value by value; every canonical and over-long-sign-extended encoding from the independent generator is decoded by the library and compared. Ladders over string length mod 8, big-integer magnitudes around byte/word boundaries with both signs, integer extremes, empty/nested structures and tag extremes are enumerated completely. Sampling of an unbounded space: held on what was observed.",
    note="Trusts package wire (independent reading of KMIP 1.4 §9.1 by the same author). No third-party binary vectors exist in the repository.", ref="§2 C03"),
